@@ -113,6 +113,8 @@ func isNamedResult(fn *ssa.Function, cell *ssa.Alloc) bool {
 func runC08(c *Check, a *Analysis) {
 	p := c.P
 	sc := siteCounter{}
+	// a stream context that is recycled while the stream table still points at it is dereferenced at teardown
+	ruleStreamCtxStable(c, a, "R-STREAM-CTX-STABLE")
 
 	// ---- R-PANIC-BYTES
 	c.Rule("R-PANIC-BYTES", "every function that passes the raw frame bytes (Context.data) to a decoder has a dominating deferred recover() barrier that sets its error result", 2)
